@@ -197,11 +197,26 @@ func responseKeysInOrder(m map[string]interface{}) []string {
 	return keys
 }
 
+// forceThunk calls a deferred value and keeps forcing what it produces until
+// that is no longer deferred: a thunk may itself yield a thunk (a resolver's
+// func() (interface{}, error) returning another one), and neither a later pass
+// nor the response may be left holding it.
+func forceThunk(f func() interface{}) interface{} {
+	v := f()
+	for {
+		g, ok := v.(func() interface{})
+		if !ok {
+			return v
+		}
+		v = g()
+	}
+}
+
 func dethunkMapBreadthFirst(m map[string]interface{}, dethunkQueue *dethunkQueue) {
 	for _, k := range responseKeysInOrder(m) {
 		v := m[k]
 		if f, ok := v.(func() interface{}); ok {
-			m[k] = f()
+			m[k] = forceThunk(f)
 		}
 		switch val := m[k].(type) {
 		case map[string]interface{}:
@@ -215,7 +230,7 @@ func dethunkMapBreadthFirst(m map[string]interface{}, dethunkQueue *dethunkQueue
 func dethunkListBreadthFirst(list []interface{}, dethunkQueue *dethunkQueue) {
 	for i, v := range list {
 		if f, ok := v.(func() interface{}); ok {
-			list[i] = f()
+			list[i] = forceThunk(f)
 		}
 		switch val := list[i].(type) {
 		case map[string]interface{}:
@@ -234,7 +249,7 @@ func dethunkMapDepthFirst(m map[string]interface{}) {
 	for _, k := range responseKeysInOrder(m) {
 		v := m[k]
 		if f, ok := v.(func() interface{}); ok {
-			m[k] = f()
+			m[k] = forceThunk(f)
 		}
 		switch val := m[k].(type) {
 		case map[string]interface{}:
@@ -248,7 +263,7 @@ func dethunkMapDepthFirst(m map[string]interface{}) {
 func dethunkListDepthFirst(list []interface{}) {
 	for i, v := range list {
 		if f, ok := v.(func() interface{}); ok {
-			list[i] = f()
+			list[i] = forceThunk(f)
 		}
 		switch val := list[i].(type) {
 		case map[string]interface{}:
@@ -263,7 +278,7 @@ func dethunkListDepthFirst(list []interface{}) {
 // inside the value it produced, depth first; it returns the forced value.
 func dethunkValueDepthFirst(v interface{}) interface{} {
 	if f, ok := v.(func() interface{}); ok {
-		v = f()
+		v = forceThunk(f)
 	}
 	switch val := v.(type) {
 	case map[string]interface{}:
